@@ -428,6 +428,9 @@ func (i *interpreter) startPath(w workItem) {
 	i.tainted = false
 	i.vcwd = ""
 	i.egErr = nil
+	i.mapRangers = nil
+	i.recordRangers = false
+	i.bigOrder = -1
 }
 
 func (i *interpreter) choiceMap() map[string]int {
